@@ -8,6 +8,7 @@ import (
 	"fmt"
 	"os"
 	"path/filepath"
+	"strconv"
 	"strings"
 	"testing"
 	"time"
@@ -24,7 +25,8 @@ import (
 // Programs (names carry the case tag):
 //   w  witness: counts every line it processes per source file (ground truth
 //      for "lines delivered")
-//   e  raises a runtime error on lines `E<non-number>`; versions v1, v2 differ
+//   e  raises a runtime error on lines `E<non-number>` (failed conversion) and
+//      `E0` (division by zero); versions v1, v2 differ
 //      in a comment and a constant
 //   b  does not compile
 //   k  compiles, but declares the witness's metric with another kind: refused
@@ -56,9 +58,9 @@ func c25ProgSource(prog, edit, tag string) string {
 		}
 		if edit == "kind" {
 			// the same declaration at the same place, another kind
-			return "gauge n_" + tag + "\n/^E(?P<x>\\S+)/ {\n  n_" + tag + " += int($x) * 1\n}\n# kind\n"
+			return "gauge n_" + tag + "\n/^E(?P<x>\\S+)/ {\n  n_" + tag + " += 100 / int($x) * 1\n}\n# kind\n"
 		}
-		return "counter n_" + tag + "\n/^E(?P<x>\\S+)/ {\n  n_" + tag + " += int($x) * " + inc + "\n}\n# " + edit + "\n"
+		return "counter n_" + tag + "\n/^E(?P<x>\\S+)/ {\n  n_" + tag + " += 100 / int($x) * " + inc + "\n}\n# " + edit + "\n"
 	case "b":
 		return "counter c_" + tag + "\n/x/ {\n  c_" + tag + "++\n# " + edit + "\n"
 	case "k":
@@ -340,7 +342,7 @@ func runC25x(c c25Case) *vstat.Failure {
 						if len(tok) > 0 && !strings.HasPrefix(l[1:], " ") {
 							arg = tok[0]
 						}
-						if arg != "" && !isInt(arg) {
+						if arg != "" && (!isInt(arg) || isZero(arg)) {
 							rtErrs++
 						}
 					}
@@ -373,7 +375,7 @@ func runC25x(c c25Case) *vstat.Failure {
 				eExpect++
 				l := pending[fi]
 				if strings.HasPrefix(l, "E") && !strings.HasPrefix(l[1:], " ") {
-					if tok := strings.Fields(l[1:]); len(tok) > 0 && !isInt(tok[0]) {
+					if tok := strings.Fields(l[1:]); len(tok) > 0 && (!isInt(tok[0]) || isZero(tok[0])) {
 						rtErrs++
 					}
 				}
@@ -425,7 +427,7 @@ func TestC25(t *testing.T) {
 	st := vstat.New("C25", "end-to-end runs of a real mtail server (tailer, runtime, VMs) over a program directory (a witness program counting delivered lines per file, a program raising runtime errors on known lines with two versions, a program that does not compile, a program refused at registration for a kind conflict) and 1-3 log files receiving generated appends (LF, CRLF, several lines per write, unterminated tails); program edits (new version, same bytes, broken, remove) followed by reload requests; counters read as deltas and reconciled after every step and after shutdown. non-trivial = a run with a runtime-erroring line, a failed load and a successful reload; distinct by case")
 	st.Assumptions = []string{"the witness program's own per-file counts are the ground truth for 'lines delivered'", "one server at a time; program and file names are unique per case"}
 	st.Run(t, c25RunRaw, func() {
-		texts := []string{"hello\n", "E12\n", "Eabc\n", "E1 x\nfoo\n", "Ex y\r\n", "a\nb\nc\n", "part", "ial\n", "Ezz", "\n", "E7\r\nE-\n", "zz\n", ""}
+		texts := []string{"hello\n", "E12\n", "E0\n", "E0 x\nE3\n", "Eabc\n", "E1 x\nfoo\n", "Ex y\r\n", "a\nb\nc\n", "part", "ial\n", "Ezz", "\n", "E7\r\nE-\n", "zz\n", ""}
 		st.Check(t, func(rt *rapid.T) {
 			var c c25Case
 			defer st.Guard(func() any { return c })
@@ -448,7 +450,7 @@ func TestC25(t *testing.T) {
 				switch rapid.SampledFrom([]string{"append", "append", "append", "prog", "scan"}).Draw(rt, "op") {
 				case "append":
 					tx := rapid.SampledFrom(texts).Draw(rt, "text")
-					if strings.Contains(tx, "Eabc") || strings.Contains(tx, "Ex") || strings.Contains(tx, "E-") || strings.Contains(tx, "Ezz") {
+					if strings.Contains(tx, "Eabc") || strings.Contains(tx, "Ex") || strings.Contains(tx, "E-") || strings.Contains(tx, "Ezz") || strings.Contains(tx, "E0") {
 						hasErrLine = true
 					}
 					c.Steps = append(c.Steps, c25Step{Op: "append", File: rapid.IntRange(0, c.Files-1).Draw(rt, "file"), Text: tx})
@@ -483,4 +485,10 @@ func TestC25(t *testing.T) {
 			st.Report(rt, runC25(c), c)
 		})
 	})
+}
+
+// isZero reports whether the integer text s denotes zero.
+func isZero(s string) bool {
+	n, err := strconv.ParseInt(s, 10, 64)
+	return err == nil && n == 0
 }
